@@ -106,7 +106,7 @@ func conform(c model.Case, reps int, prefill, checkDest, checkRan bool) (*confor
 			return out, fmt.Sprintf("panic: %v", res.Panic), ""
 		}
 		got := res.Norm(false)
-		if !model.EqualIss(got, spec.Issues) {
+		if !model.EqualIssSpec(got, spec.Issues) {
 			return out, fmt.Sprintf("issues differ (run %d): got %s want %s", r, fmtIss(got), fmtIss(spec.Issues)), ""
 		}
 		if res.NoIssues() != (len(spec.Issues) == 0) {
